@@ -25,6 +25,7 @@
 
 #include <stdint.h>
 #include <stdlib.h> //size_t, NULL
+#include <stddef.h> //offsetof
 
 /** @defgroup linkedlist-C C Linked List Interface
  * A linked list library for C modules
